@@ -105,6 +105,58 @@ def document_stores():
     return sorted(set(out))
 
 
+def store_roles(stores):
+    """classify every store site by the *role* of the function it sits in, so that the obligation does not
+    depend on which vertex class happens to hold a writer:
+      writer  - a method named set / pop of a class in path/vertex/, the Match.data setter / deleter or
+                Match.pop, any method of the list view DocumentList;
+      helper  - a private function (leading underscore) of such a module that is referred to only from
+                writers / helpers of the same kind;
+      other   - anything else (a read path that stores into the document)"""
+    def base_role(mod, qual):
+        name = qual.split(".")[-1]
+        if mod.startswith("path.vertex.") and name in ("set", "pop"):
+            return "writer"
+        if mod == "path.traverser.match" and qual in ("Match.data", "Match.pop"):
+            return "writer"
+        if mod == "descriptor.document_list" and qual.startswith("DocumentList."):
+            return "writer"
+        return None
+    # where is each private name referred to?
+    refs = {}
+    for root, _, files in os.walk(SRC):
+        for f in sorted(files):
+            if not f.endswith(".py"):
+                continue
+            p_ = os.path.join(root, f)
+            mod = os.path.relpath(p_, SRC)[:-3].replace(os.sep, ".")
+            tree = ast.parse(open(p_).read())
+
+            def walk(node, prefix):
+                for ch in ast.iter_child_nodes(node):
+                    if isinstance(ch, (ast.FunctionDef, ast.AsyncFunctionDef)):
+                        for n in ast.walk(ch):
+                            nm = n.attr if isinstance(n, ast.Attribute) else n.id if isinstance(n, ast.Name) else None
+                            if nm and nm.startswith("_") and not nm.startswith("__"):
+                                refs.setdefault(nm, set()).add((mod, prefix + ch.name))
+                    elif isinstance(ch, ast.ClassDef):
+                        walk(ch, prefix + ch.name + ".")
+            walk(tree, "")
+    out = []
+    for mod, qual, kind in stores:
+        role = base_role(mod, qual)
+        if role is None:
+            name = qual.split(".")[-1]
+            users = refs.get(name, set()) - {(mod, qual)}
+            if name.startswith("_") and not name.startswith("__") and users and \
+                    all(base_role(m, q) == "writer" for m, q in users):
+                role = "helper"
+            else:
+                role = "other"
+        out.append((mod, qual, kind, role))
+    return out
+
+
 def exc_mro():
     import importlib
     tp = importlib.import_module("treepath")
@@ -209,12 +261,18 @@ end Treepath.Generated
     def gen_stores():
         stores = document_stores()
         rows = ", ".join(f'("{m}", "{q}", "{k}")' for m, q, k in stores)
+        roles = ", ".join(f'("{q}", "{r}")' for m, q, k, r in store_roles(stores))
         write_if_changed(os.path.join(GEN, "Stores.lean"), f"""/- GENERATED by harness/gen_facts.py: every store into / mutating call on a document container
 found in /repo/src/treepath (syntactic, intra-procedural, alias-tracking) — do not edit -/
 namespace Treepath.Generated
 
 /-- (module, function, kind) -/
 def documentStores : List (String × String × String) := [{rows}]
+
+/-- the role of the function each of them sits in: "writer" (a `set` / `pop` method of a vertex
+class, the `Match.data` setter / deleter / `Match.pop`, a method of the list view), "helper" (a
+private function used by writers only), or "other" -/
+def storeRoles : List (String × String) := [{roles}]
 
 end Treepath.Generated
 """)
